@@ -171,14 +171,20 @@ func (c *Ctx) runInverseOrder(rule string, pkgs []*packages.Package) {
 			continue
 		}
 		for _, fn := range c.srcFuncs(p) {
-			if fn.Name() != "Inverse" || fn.Signature.Recv() == nil || fn.Parent() != nil {
+			var recv ssa.Value
+			if fn.Name() == "Inverse" && fn.Signature.Recv() != nil && fn.Parent() == nil {
+				if sl, ok := fn.Signature.Recv().Type().Underlying().(*types.Slice); ok && hasInverseMethod(sl.Elem()) {
+					recv = fn.Params[0]
+				}
+			}
+			if recv == nil {
+				// elsewhere: member inverses collected into a composition type
+				// (a named slice type that itself has an Inverse method)
+				recv = inverseCollection(fn)
+			}
+			if recv == nil {
 				continue
 			}
-			sl, ok := fn.Signature.Recv().Type().Underlying().(*types.Slice)
-			if !ok || !hasInverseMethod(sl.Elem()) {
-				continue
-			}
-			recv := fn.Params[0]
 			c.analysed(qname(fn))
 			key := qname(fn) + " members inverted in the opposite order"
 			// reversal after the fact
@@ -338,4 +344,59 @@ func indexDirection(v ssa.Value, depth int) (int, bool) {
 	}
 	// constants, lengths, values computed before the loop
 	return 0, true
+}
+
+// inverseCollection: fn stores or appends m.Inverse(), m an element of a slice
+// S, into a value of a named slice type that has an Inverse method of its own
+// (a composition such as JoinedTransform); returns S.
+func inverseCollection(fn *ssa.Function) ssa.Value {
+	isComposition := func(t types.Type) bool {
+		n, ok := t.(*types.Named)
+		if !ok {
+			return false
+		}
+		sl, ok := n.Underlying().(*types.Slice)
+		return ok && hasInverseMethod(sl.Elem()) && hasInverseMethod(n)
+	}
+	for _, b := range fn.Blocks {
+		for _, ins := range b.Instrs {
+			call, ok := ins.(*ssa.Call)
+			if !ok || !call.Call.IsInvoke() || call.Call.Method.Name() != "Inverse" {
+				continue
+			}
+			ia := loadOfIndex(call.Call.Value)
+			if ia == nil {
+				continue
+			}
+			if _, isSl := ia.X.Type().Underlying().(*types.Slice); !isSl {
+				continue
+			}
+			for _, ref := range *call.Referrers() {
+				st, ok := ref.(*ssa.Store)
+				if !ok {
+					continue
+				}
+				dst, ok := st.Addr.(*ssa.IndexAddr)
+				if !ok {
+					continue
+				}
+				if isComposition(dst.X.Type()) {
+					return ia.X
+				}
+				// the one-element array of an append: look at what the append yields
+				if al, isAl := dst.X.(*ssa.Alloc); isAl {
+					for _, r2 := range *al.Referrers() {
+						if sl, ok := r2.(*ssa.Slice); ok {
+							for _, r3 := range *sl.Referrers() {
+								if ap, ok := r3.(*ssa.Call); ok && isComposition(ap.Type()) {
+									return ia.X
+								}
+							}
+						}
+					}
+				}
+			}
+		}
+	}
+	return nil
 }
